@@ -1256,8 +1256,21 @@ func (eval Evaluator) RotateHoistedNew(ctIn *rlwe.Ciphertext, rotations []int) (
 func (eval Evaluator) RotateHoisted(ctIn *rlwe.Ciphertext, rotations []int, opOut map[int]*rlwe.Ciphertext) (err error) {
 	levelQ := ctIn.Level()
 	eval.DecomposeNTT(levelQ, eval.GetParameters().MaxLevelP(), eval.GetParameters().PCount(), ctIn.Value[1], ctIn.IsNTT, eval.BuffDecompQP)
-	for _, i := range rotations {
+
+	// Every rotation reads ctIn: a rotation whose receiver is ctIn itself is evaluated last.
+	inPlace := -1
+	for k, i := range rotations {
+		if opOut[i] == ctIn {
+			inPlace = k
+			continue
+		}
 		if err = eval.AutomorphismHoisted(levelQ, ctIn, eval.BuffDecompQP, eval.GetParameters().GaloisElement(i), opOut[i]); err != nil {
+			return fmt.Errorf("cannot RotateHoisted: %w", err)
+		}
+	}
+
+	if inPlace >= 0 {
+		if err = eval.AutomorphismHoisted(levelQ, ctIn, eval.BuffDecompQP, eval.GetParameters().GaloisElement(rotations[inPlace]), ctIn); err != nil {
 			return fmt.Errorf("cannot RotateHoisted: %w", err)
 		}
 	}
